@@ -21,6 +21,8 @@ type ReadOnlyFS struct {
 	sourceFS  hackpadfs.FS
 	cacheFS   writableFS
 	cacheInfo sync.Map
+	// incomplete holds names whose copy into the cache failed part-way; whatever the cache FS holds for them must not be served
+	incomplete sync.Map
 
 	pathlock pathlock.Mutex
 	options  ReadOnlyOptions
@@ -56,7 +58,7 @@ func (fs *ReadOnlyFS) Open(name string) (hackpadfs.File, error) {
 
 	fs.pathlock.Lock(name)
 	defer fs.pathlock.Unlock(name)
-	{
+	if _, partial := fs.incomplete.Load(name); !partial {
 		// if file is in cache, return it. continue otherwise
 		f, err := fs.cacheFS.Open(name)
 		if err == nil {
@@ -88,7 +90,16 @@ func (fs *ReadOnlyFS) Open(name string) (hackpadfs.File, error) {
 	return f, err
 }
 
-func (fs *ReadOnlyFS) copyFile(name string, f hackpadfs.File, info hackpadfs.FileInfo) error {
+func (fs *ReadOnlyFS) copyFile(name string, f hackpadfs.File, info hackpadfs.FileInfo) (err error) {
+	defer func() {
+		if err != nil {
+			// never leave a truncated copy behind to be served by a later Open
+			fs.incomplete.Store(name, true)
+			_ = hackpadfs.Remove(fs.cacheFS, name)
+		} else {
+			fs.incomplete.Delete(name)
+		}
+	}()
 	parentName := path.Dir(name)
 	if err := hackpadfs.MkdirAll(fs.cacheFS, parentName, 0700); err != nil {
 		return &hackpadfs.PathError{Op: "open", Path: parentName, Err: err}
@@ -97,7 +108,12 @@ func (fs *ReadOnlyFS) copyFile(name string, f hackpadfs.File, info hackpadfs.Fil
 	if err != nil {
 		return err
 	}
-	defer func() { _ = destFile.Close() }()
+	defer func() {
+		closeErr := destFile.Close()
+		if err == nil {
+			err = closeErr // the copy is only complete once the cache file closed cleanly
+		}
+	}()
 
 	destFileWriter, ok := destFile.(io.Writer)
 	if !ok {
